@@ -255,6 +255,11 @@ def make_filtered(cx, src: Arr, mask: Arr) -> Filtered:
         u1 = UnivFact(1, f1, decls=[gd])
         u2 = UnivFact(1, f2, decls=[ginvd])
         cx.univ.extend([u1, u2])
+        if isinstance(n, int) and n <= 32:
+            # small concrete length: state the enumeration facts at every position (no trigger needed)
+            for c in range(n):
+                cx.assume(f1(z3.IntVal(c)))
+                cx.assume(f2(z3.IntVal(c)))
         cache[key] = (g, ginv, m, u1, u2, mask)
     g, ginv, m, u1, u2, _ = cache[key]
     sfn = src.fn
@@ -396,7 +401,17 @@ def store(cx, arr: Arr, idx, val):
                 v0 = val.at()
                 cx.set_arr(arr, fn=lambda i: V.s_ite(mfn(i), V.cast_kind(v0, kind), old(i)))
                 return
-            raise Unsupported("masked store of an uncompressed array")
+            if val.ndim == 1:
+                # arr[mask] = B with B of length count(mask): position i (mask true) receives B[ginv(i)], the rank of
+                # i among the true positions (ghost enumeration of the mask, assumed numpy contract)
+                enum = make_filtered(cx, arr, mask)
+                c = V.s_cmp("==", val.shape[0], enum.count)
+                if c is not True:
+                    cx.oblige(f"masked store: value length equals the number of true mask positions ({arr.name})", c, kind="index")
+                vfn, ginv = val.fn, enum.ginv
+                cx.set_arr(arr, fn=lambda i: V.s_ite(mfn(i), V.cast_kind(vfn(ginv(i)), kind), old(i)))
+                return
+            raise Unsupported("masked store of a multi-dimensional array")
         cx.set_arr(arr, fn=lambda i: V.s_ite(mfn(i), V.cast_kind(val, kind), old(i)))
         return
     if any(isinstance(i, Arr) for i in idx):
@@ -648,7 +663,7 @@ def array_max(cx, arr):
     from .interp import UnivFact
 
     if arr.ndim != 1:
-        raise Unsupported("max of a multi-dimensional array")
+        return _array_extreme_nd(cx, arr, True)
     n = arr.shape[0]
     cl = concrete_list(arr)
     if cl is not None:
@@ -666,19 +681,30 @@ def array_max(cx, arr):
     return m
 
 
-def array_min(cx, arr):
+def _array_extreme_nd(cx, arr, is_max):
+    """max/min over all elements of an n-D array: fresh m, attained at a witness index tuple, bounds every element."""
     from .interp import UnivFact
 
-    n = arr.shape[0]
-    if cx.fork(V.s_cmp("==", n, 0)):
-        raise PyRaise("ValueError", ("zero-size array to reduction operation",))
+    for n in arr.shape:
+        if cx.fork(V.s_cmp("==", n, 0)):
+            raise PyRaise("ValueError", ("zero-size array to reduction operation",))
     sort = "real" if arr.kind == "real" else "int"
-    m = cx.fresh("min", sort)
-    w = cx.fresh("argmin")
-    cx.assume(z3.And(w >= 0, w < V.to_z3(n), V.to_z3(arr.fn(w)) == m))
+    m = cx.fresh("max" if is_max else "min", sort)
+    ws = [cx.fresh("argext") for _ in arr.shape]
+    dims = [V.to_z3(n) for n in arr.shape]
+    cx.assume(z3.And(*[z3.And(w >= 0, w < d) for w, d in zip(ws, dims)], V.to_z3(arr.fn(*ws)) == m))
     fn = arr.fn
-    cx.univ.append(UnivFact(1, lambda i: z3.Implies(z3.And(i >= 0, i < V.to_z3(n)), V.to_z3(fn(i)) >= m), sources=[arr]))
+
+    def body(*idx):
+        inside = z3.And(*[z3.And(i >= 0, i < d) for i, d in zip(idx, dims)])
+        return z3.Implies(inside, V.to_z3(fn(*idx)) <= m if is_max else V.to_z3(fn(*idx)) >= m)
+
+    cx.univ.append(UnivFact(len(dims), body, sources=[arr]))
     return m
+
+
+def array_min(cx, arr):
+    return _array_extreme_nd(cx, arr, False)
 
 
 def np_any(interp, a, **kw):
@@ -692,6 +718,11 @@ def np_any(interp, a, **kw):
     cl = concrete_list(a)
     if cl is not None:
         return any(bool(x) for x in cl)
+    if isinstance(a.shape[0], int) and a.shape[0] <= 64:
+        r = False  # concrete length, symbolic elements: the disjunction itself
+        for c in range(a.shape[0]):
+            r = V.s_or(r, V.sbool(a.fn(c)))
+        return r
     b = cx.fresh("any", "bool")
     w = cx.fresh("witness")
     n = V.to_z3(a.shape[0])
@@ -1198,4 +1229,13 @@ def call_external(interp, dotted, args, kwargs):
     if f is None:
         raise Unsupported(f"external function {dotted} has no assumed contract")
     interp.cx.ghost.setdefault("externals_used", set()).add(dotted)
-    return f(interp, *args, **kwargs)
+    try:
+        return f(interp, *args, **kwargs)
+    except (AttributeError, TypeError) as e:
+        from .interp import ModelObject
+
+        mo = [type(x).__name__ for x in list(args) + list(kwargs.values()) if isinstance(x, ModelObject)]
+        if mo:
+            # an external object without a model for this operation: undecided, not a checker crash
+            raise Unsupported(f"{dotted} applied to {', '.join(mo)} (no assumed contract for that)") from e
+        raise
